@@ -27,7 +27,7 @@ Print Assumptions c05_facts_now.
 (** regression witnesses of the repaired defects: the hypotheses are not idle *)
 Theorem c05_old_accessor_breaks_isolation :
   let st := mk_c true true true 7 true 3 (RoleStore 3) [3] in
-  let e := mk_env false 0 [] (fun _ _ => true) 0 0 (f_sites old_store_table) (TPersonal false) false in
+  let e := mk_env false 0 [] (fun _ _ => true) 0 0 (f_sites old_store_table) (TPersonal false) false true in
   access_ok old_store_table = false /\
   exists st' evs, step old_store_table st "STORE" e = Some (st', evs) /\
     In (Touch (Personal 7)) evs /\ In UseSelId evs /\ c_origin st = RoleStore 3.
@@ -35,7 +35,7 @@ Proof. exact old_accessor_breaks_isolation. Qed.
 
 Theorem c05_unfixed_failed_select_breaks_origin :
   let st := mk_c true true true 7 true 3 (RoleStore 3) [3] in
-  let e := mk_env false 0 [] (fun _ _ => true) 0 0 [] (TPersonal false) false in
+  let e := mk_env false 0 [] (fun _ _ => true) 0 0 [] (TPersonal false) false true in
   let st' := fst (do_select false st e) in
   c_sel st' = true /\ c_origin st' <> selected_store st'.
 Proof. exact unfixed_failed_select_breaks_origin. Qed.
@@ -44,8 +44,8 @@ Proof. exact unfixed_failed_select_breaks_origin. Qed.
     role mailbox and STOREs; the only stores touched are shared and role 3 *)
 Definition pick5 (w : string) (k : site_kind) : list site :=
   filter (fun s => String.eqb (s_cmd s) w && kind_eqb (s_kind s) k) (f_sites Gen.Facts.table).
-Definition e_sel : env := mk_env false 0 [] (fun _ r => Nat.eqb r 3) 0 3 [] (TRole 3 true) false.
-Definition e_store : env := mk_env false 0 [] (fun _ r => Nat.eqb r 3) 0 3 (pick5 "STORE" AccSelected ++ pick5 "STORE" UseSel) (TPersonal false) false.
+Definition e_sel : env := mk_env false 0 [] (fun _ r => Nat.eqb r 3) 0 3 [] (TRole 3 true) false true.
+Definition e_store : env := mk_env false 0 [] (fun _ r => Nat.eqb r 3) 0 3 (pick5 "STORE" AccSelected ++ pick5 "STORE" UseSel) (TPersonal false) false true.
 Example c05_example_run :
   match run Gen.Facts.table (mk_c true true false 7 false 0 SharedStore [3]) [("SELECT"%string, e_sel); ("STORE"%string, e_store)] with
   | Some (st, tr) => c_sel st && forallb (fun o => forallb (fun ev => match ev with Touch (Personal _) => false | _ => true end) (o_events o)) tr
